@@ -355,13 +355,17 @@ func init() {
 		return out
 	}
 	reg(&Spec{
-		ID:       "C02",
-		Quick:    func(l *loaded) []Inst { return append(c02(false), c02relay(24)...) },
-		Thorough: func(l *loaded) []Inst { return append(c02(true), c02relay(48)...) },
-		Covers:   []string{"C02.end", "C02.relay.accepted", "C02.relay.rejected"},
-		Bounds:   "encode->decode of every encodable service type (connect, connection-state, disconnect req/res, tunnelling req/ack, routing indication, search/description req/res) x every cEMI kind (L_Data req/con/ind with application and control units, L_Raw req/con/ind, L_Busmon.ind, unsupported code); all field values symbolic; quick: info length {0,1,2,255}, payload {1,2,15,16,254}, raw {0,1,5}, families {0,1,2}, name length {0,1,29}; thorough: every info length 0..255, payload 1..254, raw 0..40, families 0..20, names 0..29; plus decode -> re-encode -> decode of fully symbolic byte strings (see outside_bounds for the lengths)",
-		Outside:  "decode->re-encode->decode: every byte string of length 6..24 (thorough ..48) under each service identifier, description responses of 60..66 bytes with a device-information DIB first, search responses of 68..74 bytes; longer strings; lengths not enumerated in the quick tier of the encode->decode direction",
-		Assume:   []string{"validity predicate: first payload byte < 64, unnumbered units carry sequence 0, hardware address 6 bytes, friendly name of non-NUL Latin-1 characters, DIB type octets 1 and 2", "x/text ISO-8859-1 codec replaced by the built-in byte<->rune map"},
+		ID: "C02",
+		Quick: func(l *loaded) []Inst {
+			return append(append(c02(false), c02relay(24)...), Inst{Pkg: "knxnet", Fn: "HarnessC02Indications", Note: "decode-only services written from the specification"})
+		},
+		Thorough: func(l *loaded) []Inst {
+			return append(append(c02(true), c02relay(48)...), Inst{Pkg: "knxnet", Fn: "HarnessC02Indications"})
+		},
+		Covers:  []string{"C02.end", "C02.relay.accepted", "C02.relay.rejected", "C02.ind.end"},
+		Bounds:  "encode->decode of every encodable service type (connect, connection-state, disconnect req/res, tunnelling req/ack, routing indication, search/description req/res) x every cEMI kind (L_Data req/con/ind with application and control units, L_Raw req/con/ind, L_Busmon.ind, unsupported code); all field values symbolic; quick: info length {0,1,2,255}, payload {1,2,15,16,254}, raw {0,1,5}, families {0,1,2}, name length {0,1,29}; thorough: every info length 0..255, payload 1..254, raw 0..40, families 0..20, names 0..29; plus decode -> re-encode -> decode of fully symbolic byte strings (see outside_bounds for the lengths)",
+		Outside: "decode->re-encode->decode: every byte string of length 6..24 (thorough ..48) under each service identifier, description responses of 60..66 bytes with a device-information DIB first, search responses of 68..74 bytes; longer strings; lengths not enumerated in the quick tier of the encode->decode direction",
+		Assume:  []string{"validity predicate: first payload byte < 64, unnumbered units carry sequence 0, hardware address 6 bytes, friendly name of non-NUL Latin-1 characters, DIB type octets 1 and 2", "x/text ISO-8859-1 codec replaced by the built-in byte<->rune map"},
 	})
 
 	c15 := func(thorough bool) []Inst {
@@ -396,6 +400,9 @@ func init() {
 			for _, nl := range []int64{1, 5, 29, 30, 40} {
 				out = append(out, Inst{Pkg: "knxnet", Fn: "HarnessC15Pack", Args: []int64{svc, 0, 0, 0, 1, nl, 1}, Unwind: 2000, Note: "name with a rune beyond Latin-1"})
 			}
+			out = append(out, Inst{Pkg: "knxnet", Fn: "HarnessC15PackSeq", Args: []int64{svc, 8, 3, 1}, Unwind: 2000, Note: "two encodings in a row: no state carried over"},
+				Inst{Pkg: "knxnet", Fn: "HarnessC15PackSeq", Args: []int64{svc, 29, 0, 0}, Unwind: 2000},
+				Inst{Pkg: "knxnet", Fn: "HarnessC15PackSeq", Args: []int64{svc, 12, 5, 0}, Unwind: 2000})
 		}
 		return out
 	}
@@ -403,7 +410,7 @@ func init() {
 		ID:       "C15",
 		Quick:    func(l *loaded) []Inst { return c15(false) },
 		Thorough: func(l *loaded) []Inst { return c15(true) },
-		Covers:   []string{"C15.end", "C15.send.end", "C15.sendrouter.end"},
+		Covers:   []string{"C15.end", "C15.send.end", "C15.sendrouter.end", "C15.packseq.end"},
 		Bounds:   "every value shape of C02 (quick bounds) plus oversize parts: additional info and application data of {256,300} (thorough 255..600) bytes, empty application data, friendly names of {30,31} (thorough 29..80) characters and names with a rune beyond Latin-1; buffer of exactly Size() bytes pre-filled with symbolic stale bytes, followed by 8 guard bytes; TunnelSocket.Send through a recording net.Conn and RouterSocket.Send through the WriteToUDP stub",
 		Outside:  "stale-independence is decided syntactically on the output terms (no output byte may mention a stale variable) and confirmed natively by re-running with different stale bytes",
 	})
@@ -602,7 +609,8 @@ func init() {
 		Assume:   []string{"container/list is executed from its real SSA", "in the bounded runs math/rand.Float64 is one of {0, 0.5, 0.9999999}"},
 	})
 	c13 := func(thorough bool) []Inst {
-		out := []Inst{{Pkg: "knx", Fn: "HarnessC13Cap", Note: "symbolic wait time, control and random part"}}
+		out := []Inst{{Pkg: "knx", Fn: "HarnessC13Cap", Note: "symbolic wait time, control and random part"},
+			{Pkg: "knxnet", Fn: "HarnessC02Indications", ForceNative: true, Note: "wire form of routing-busy / routing-lost indications (specification service numbers, all 16-bit wait times and counts)"}}
 		add := func(ns, per, nb, pause, wait int64, ctx int) {
 			out = append(out, Inst{Pkg: "knx", Fn: "HarnessC13", Args: []int64{ns, per, nb, pause, wait}, Ctx: ctx, RandChoice: true, MaxSched: 20000})
 		}
@@ -626,7 +634,7 @@ func init() {
 		Solver:   "cvc5",
 		Quick:    func(l *loaded) []Inst { return c13(false) },
 		Thorough: func(l *loaded) []Inst { return c13(true) },
-		Covers:   []string{"C13.end", "C13.cap.end"},
+		Covers:   []string{"C13.end", "C13.cap.end", "C02.ind.end"},
 		Bounds:   "real serve goroutine and 1..2 (thorough 3) sender goroutines x 1..2 messages, 0..2 busy indications handed in at every point of the interleaving (context bound 2..3), pause in {0,5,20} ms, wait in {0,10,30,60,100,500} ms on the virtual clock (lower-bound semantics: goroutines take no time, timers fire exactly at their deadline); the 50 ms cap and the resume obligation with a fully symbolic 16-bit wait time, control word and random part",
 		Outside:  "8 senders and bursts of 200; the clause 'at most one further transmission per goroutine already inside Send' needs a fair (FIFO) mutex and is not decided: under the plain sync.Mutex contract a newcomer may barge (see DESIGN 3.2) - decided instead: nothing is transmitted from the instant the server goroutine owns the lock until min(wait, 50 ms) later, pacing gap, every Send returns",
 		Assume:   []string{"sync.Mutex: any waiter or newcomer may win an unlocked mutex", "time.AfterFunc/Sleep are engine primitives on the virtual clock"},
@@ -643,6 +651,9 @@ func init() {
 		}
 		for m := int64(0); m <= 5; m++ {
 			out = append(out, Inst{Pkg: "knx", Fn: "HarnessC09Dispatch", Args: []int64{m}})
+		}
+		for r := int64(0); r <= 2; r++ {
+			out = append(out, Inst{Pkg: "knx", Fn: "HarnessC09Relay", Args: []int64{r}, Note: "offer window of a connection-state response"})
 		}
 		ctx := 2
 		if thorough {
@@ -670,7 +681,7 @@ func init() {
 		NoNative: true,
 		Quick:    func(l *loaded) []Inst { return c09(false) },
 		Thorough: func(l *loaded) []Inst { return c09(true) },
-		Covers:   []string{"C09.cs.answered", "C09.cs.failed", "C09.dispatch.disconnect_request", "C09.dispatch.disconnect_response", "C09.dispatch.ignored", "C09.epoch.healthy", "C09.epoch.failed", "C09.epoch.alive", "C09.epoch.terminated", "C09.parked.end", "C09.across.end", "C09.traffic.end"},
+		Covers:   []string{"C09.cs.answered", "C09.cs.failed", "C09.dispatch.disconnect_request", "C09.dispatch.disconnect_response", "C09.dispatch.ignored", "C09.epoch.healthy", "C09.epoch.failed", "C09.epoch.alive", "C09.epoch.terminated", "C09.parked.end", "C09.across.end", "C09.traffic.end", "C09.relay.delivered"},
 		Bounds:   "one real connection-state exchange from an arbitrary channel against K<=3 (thorough 4) environment events (silence, resend interval passes, status with all 256 values symbolic, channel closed); the real process() dispatch on one frame of each kind with a symbolic channel; bounded runs of the real serve() goroutine against a gateway goroutine over two epochs: heartbeat interval shorter (3.3 s) and longer (7.3 s) than the 5.1 s response timeout, heartbeat answered / unanswered / error status (symbolic) / foreign channel / disconnect request, reconnect accepted (new channel symbolic) / busy then accepted / refused (status symbolic) / unanswered; initial channel and send counter symbolic; telegrams parked for an absent reader across a reconnect; a Send waiting behind a pending Send while the gateway drops and re-establishes the connection (channel/counter pair must be consistent); heartbeats under steady inbound traffic; context bound 2 (thorough 3)",
 		Outside:  "runs of 3..5 epochs (an epoch change is covered as such; serve() keeps no state across epochs but the Tunnel fields checked here); interval values other than the two configurations; real-time jitter",
 		Assume:   []string{"timers on the virtual clock; interval values chosen so that few timers expire at the same instant"},
@@ -720,7 +731,7 @@ func init() {
 			maxF, cuts = 3, 3
 		}
 		for f := int64(1); f <= maxF; f++ {
-			for k0 := int64(0); k0 < 4; k0++ {
+			for k0 := int64(0); k0 < 5; k0++ {
 				c := cuts
 				if f == 3 {
 					c = 2
@@ -733,10 +744,11 @@ func init() {
 		out = append(out, Inst{Pkg: "knxnet", Fn: "HarnessC16TCPBad", Args: []int64{0, 1}}, Inst{Pkg: "knxnet", Fn: "HarnessC16TCPBad", Args: []int64{1, 1}},
 			Inst{Pkg: "knxnet", Fn: "HarnessC16TCPBad", Args: []int64{0, 0}}, Inst{Pkg: "knxnet", Fn: "HarnessC16TCPBad", Args: []int64{1, 0}})
 		for k := int64(1); k <= maxF; k++ {
-			for k0 := int64(0); k0 < 4; k0++ {
+			for k0 := int64(0); k0 < 5; k0++ {
 				out = append(out, Inst{Pkg: "knxnet", Fn: "HarnessC16UDP", Args: []int64{k, k0, 0}})
 			}
 		}
+		out = append(out, Inst{Pkg: "knxnet", Fn: "HarnessC16TCPBig", Args: []int64{4200}, Unwind: 20000, Note: "a frame larger than bufio's 4096-byte buffer"})
 		for _, L := range []int64{1, 6, 8, 10, 12} {
 			out = append(out, Inst{Pkg: "knxnet", Fn: "HarnessC16UDP", Args: []int64{1, 3, L}, Note: "arbitrary datagram first, buffer reused"})
 		}
@@ -774,8 +786,8 @@ func init() {
 		NoNative: true,
 		Quick:    func(l *loaded) []Inst { return hang(c16(false)) },
 		Thorough: func(l *loaded) []Inst { return hang(c16(true)) },
-		Covers:   []string{"C16.tcp.end", "C16.tcpbad.end", "C16.udp.end", "C16.hostinfo.nat", "C16.hostinfo.local", "C16.send.concurrent.end", "C16.close.end", "C16.origin.accepted", "C16.origin.dropped"},
-		Bounds:   "real serveTCPSocket (with the real bufio.Reader and io.ReadFull) on streams of 1..2 (thorough 3) concatenated frames of four service types with symbolic field values, the Read stub returning: every placement of up to 2 (3) cut points, 1-byte dribble, or everything at once, then EOF; a frame with arbitrary body followed by a good one; a header announcing total length 0..5 (symbolic); real serveUDPSocket on 1..2 (3) datagrams, optionally preceded by an arbitrary symbolic datagram of 1..12 bytes into the reused 1024-byte buffer; Tunnel.hostInfo through requestConn for UDP/TCP/other sockets with and without SendLocalAddress; 2 (thorough 3) goroutines sending different frames through one TunnelSocket whose Write is a scheduling point",
+		Covers:   []string{"C16.tcp.end", "C16.tcpbad.end", "C16.udp.end", "C16.hostinfo.nat", "C16.hostinfo.local", "C16.send.concurrent.end", "C16.close.end", "C16.origin.accepted", "C16.origin.dropped", "C16.tcpbig.end"},
+		Bounds:   "real serveTCPSocket (with the real bufio.Reader and io.ReadFull) on streams of 1..2 (thorough 3) concatenated frames of five kinds (tunnelling ack, connection-state response, disconnect request, tunnelling requests carrying L_Data and L_Busmon) with symbolic field values, one 4.2 KB bus-monitor frame (longer than bufio's buffer), the Read stub returning: every placement of up to 2 (3) cut points, 1-byte dribble, or everything at once, then EOF; a frame with arbitrary body followed by a good one; a header announcing total length 0..5 (symbolic); real serveUDPSocket on 1..2 (3) datagrams, optionally preceded by an arbitrary symbolic datagram of 1..12 bytes into the reused 1024-byte buffer; Tunnel.hostInfo through requestConn for UDP/TCP/other sockets with and without SendLocalAddress; 2 (thorough 3) goroutines sending different frames through one TunnelSocket whose Write is a scheduling point",
 		Outside:  "50-frame streams (the receiver keeps no state between frames other than bufio's buffer); more than 3 cut points at once; more than 2 (thorough 3) concurrent senders; an application that never reads again after Close (a receiver blocked on an undelivered frame ends only when that frame is read; decided here: Close with 0..2 decoded frames pending and a reader that drains); kernel sockets, Dial*/Listen*, address parsing inside HostInfoFromAddress (redirected to an environment function)",
 		Assume:   []string{"(*net.TCPConn).Read / (*net.UDPConn).ReadFromUDP are engine stubs obeying the io.Reader contract with nondeterministic segment sizes"},
 	})
